@@ -22,7 +22,8 @@ KAD = "src/protocol/libp2p/kademlia/"
 
 # (name, property, file, old, new, expectation)
 MUTANTS = [
-    # ---- proposed fixes of the two findings (expected: the known finding disappears, nothing else appears)
+    # ---- proposed fix of the open finding D11 (expected: the known finding disappears, nothing else appears;
+    #      upstream pins the double visit of bucket 0 in the unit test closest_buckets_iterator_set_lsb)
     ("fix-D11", "C14", KAD + "routing_table.rs",
      """                    Some(i)
                 } else {
@@ -33,21 +34,21 @@ MUTANTS = [
                     self.next()
                 } else {
                     let i = BucketIndex(0);""", "clean"),
-    ("fix-D13", "C15", KAD + "query/find_node.rs",
-     """                self.pending_responses = self.pending_responses.saturating_sub(1);
-            }
-        }
-
-        // At this point""",
+    # D13 is fixed in /repo (4a25ce9): putting the old code back must be reported as a VIOLATION again
+    ("unfix-D13", "C15", KAD + "query/find_node.rs",
      """            }
         }
+        // Only the requests younger than the peer timeout count towards the parallelism factor.
         self.pending_responses = self
             .pending
             .values()
             .filter(|(_, instant)| instant.elapsed() <= self.peer_timeout)
             .count();
-
-        // At this point""", "clean"),
+""",
+     """                self.pending_responses = self.pending_responses.saturating_sub(1);
+            }
+        }
+""", "caught"),
     # ---- C14 mutations
     ("bucket-index-off", "C14", KAD + "routing_table.rs",
      "d.ilog2().map(|i| BucketIndex(i as usize))", "d.ilog2().map(|i| BucketIndex((i as usize).saturating_sub(1)))", "caught"),
